@@ -386,8 +386,11 @@ def finish(ctx):
         "wall_s": round(time.time() - ctx.t0, 2),
         "violations": nviol,
     }
-    os.makedirs(os.path.join(VERIF, "evidence"), exist_ok=True)
-    tmp = os.path.join(VERIF, "evidence", ".%s.json.%d" % (ctx.prop, os.getpid()))
+    # a run pointed at another checkout (VERIF_REPO: machinery tests on seeded changes) must never
+    # overwrite the evidence of /repo
+    evdir = "evidence" if os.path.realpath(REPO) == os.path.realpath("/repo") else os.path.join("replays", "evidence-other-checkout")
+    os.makedirs(os.path.join(VERIF, evdir), exist_ok=True)
+    tmp = os.path.join(VERIF, evdir, ".%s.json.%d" % (ctx.prop, os.getpid()))
     json.dump(ev, open(tmp, "w"), indent=1, default=str)
-    os.replace(tmp, os.path.join(VERIF, "evidence", "%s.json" % ctx.prop))
+    os.replace(tmp, os.path.join(VERIF, evdir, "%s.json" % ctx.prop))
     return rc
